@@ -7,4 +7,4 @@ From Jbk Require Import Views.Region Base.Bytes Base.Crc Base.Parser Format.Stru
 
 Extraction "model.ml" Region.run Region.of_region Region.arun Region.abs
   SetLocation.set_location SetLocation.manifest_infos SetLocation.manifest_view SetLocation.layout_okb Crc.crc_bytes Bytes.needed_bytes
-  Model.plan_plain Model.plan_dedup Model.cp_read_many ClusterWriter.accepts SyncVec.sv_accepts SyncVec.sv_first_reject SyncVec.execs SyncVec.ainit AtomicFs.fs_accepts AtomicFs.crash_states AtomicFs.wf_from AtomicFs.entry_lastb DirModel.dp_dump Search.find_table Reader.container_open Reader.container_open_lenient Reader.container_dir_dump Reader.get_content Reader.open_as_container Reader.file_ranges Canon.canon_file.
+  Model.plan_plain Model.plan_dedup Model.cp_read_many ClusterWriter.accepts SyncVec.sv_accepts SyncVec.sv_first_reject SyncVec.execs SyncVec.ainit AtomicFs.fs_accepts AtomicFs.crash_states AtomicFs.wf_from AtomicFs.entry_lastb DirModel.dp_dump Search.find_table Reader.container_open Reader.container_open_lenient Reader.container_dir_dump Reader.get_content Reader.open_as_container Reader.file_ranges Canon.canon_file Canon.canon_file_full.
